@@ -22,10 +22,12 @@ CHECKS = {
     'C03': dict(ref='5/C03', text='Election safety as step obligations: vote-once / up-to-date / term discipline (E1), election start (E3), win only with a strict majority of current-term grants (E4), for cluster sizes 2-5 with both parities; relational three-node composition in the thorough tier.'),
     'C04': dict(ref='5/C04', text='Commit rule and monotone indices: R7 (majority of voters and current-term entry at the very step the commit index moves), R6 (matchIndex only from success replies), R1/RS (follower commit only over verified entries, never backwards), R8 (applied index).'),
     'C08': dict(ref='5/C08', text='File journal vs. in-memory journal on a symbolic disk: every operation sequence of bounded length with symbolic record sizes (J1, incl. file growth and close+reopen through the real parse loop) and kill-safety with a crash cut between any two primitive writes of one operation (J3).'),
+    'C11': dict(ref='5/C11', text='Arguments of any size: packing with every mix of positional/keyword/control arguments (A1), size batching partitions nextIndex..lastIdx (A2), chunked transfer of a command of symbolic length n >= batch size through the real sender and the real follower handler (A3), journal growth (J1) and TCP framing of any length (T1).'),
     'C12': dict(ref='5/C12', text='Raising replicated methods (symbolic predicate decides which commands raise) through the real apply loop: no escape, no stall, callbacks once (X1) - the unchanged tree violates this (known finding F-RAISE); clauses that hold regardless keep other violations visible.'),
     'C13': dict(ref='5/C13', text='TCP framing through two real TcpConnection objects on a symbolic byte stream: symbolic frame lengths, receive-buffer size, short writes/EAGAIN and fragmentation (T1), corrupted length field (any 32-bit value) or payload (T2), disconnect (T3).'),
     'C15': dict(ref='5/C15', text='Every public battery method against the Python container it mimics for all operation sequences of bounded length with symbolic elements/positions/values (B1) and snapshot round trip of every battery (B2).'),
     'C16': dict(ref='5/C16', text='Replicated locks with unbounded real-valued clocks: mutual exclusion across replicas that lag by up to k commands (K1), late-acquisition rule of tryAcquire (K2), expiry / release / prolongation semantics (K3).'),
+    'C17': dict(ref='5/C17', text='Code versions: id stability over generated class shapes (V1, exhaustive enumeration), dispatch to the greatest version <= the symbolic enabled version (V2), setCodeVersion validation (V3), unsupported VERSION entry inside a committed batch (V4), name table after loading a snapshot (V5).'),
     'C18': dict(ref='5/C18', text='Read-only nodes: never vote / start elections (E1, E3 with no own address), observers\' matchIndex/response times are free solver variables absent from the commit and fallback oracles (R7), forwarding follows CB1.'),
     'C20': dict(ref='5/C20', text='Leader fallback: after a tick the node is still leader iff a strict majority of voters answered within the fallback timeout (symbolic real clock and timeout, N=2..5, observers present), non-leaders never commit (F3), acknowledgement times only from real replies (R6), hasQuorum (F4).'),
 }
